@@ -114,6 +114,11 @@ def mon_bc(args, kwargs, result, tok):
             # regime of the condition: an INFLOW state on the outgoing characteristic exists only while the invariant carried
             # from the interior does not exceed that of the reservoir at rest, u_n + 2c/(g-1) <= 2 sqrt(g r Ttot)/(g-1)
             inflow_regime = (un0 + 2 * c0 / gm) <= 2 * np.sqrt(g * rttot) / gm * (1 - 1e-9)
+            # ... and a state with a POSITIVE sound speed lies on that characteristic only while the inflow carried from the interior is
+            # not faster than the relations allow: c1 = (g-1)/(g+1) (J + sqrt(g(g+1)/(g-1) rTt - (g-1)/2 J^2)) > 0, J = u_n + 2c/(g-1)
+            Jn = un0 + 2 * c0 / gm
+            with np.errstate(all="ignore"):
+                reg = reg & (Jn + np.sqrt(np.maximum(g * (g + 1) / gm * rttot - 0.5 * gm * Jn ** 2, 0.0)) > 1e-9 * (np.abs(Jn) + c0))
             # outgoing characteristic (towards the boundary) carries u_n + 2c/(gamma-1) in outward-normal terms
             _chk(ctx, nm, "riemann-invariant", un1 + 2 * c1 / gm, un0 + 2 * c0 / gm, np.abs(un0) + c0, "outgoing-invariant-not-kept", reg, ex)
         _chk(ctx, nm, "ptot", pt1, 0 * p0 + ptot, 0 * p0 + ptot, "total-pressure-not-imposed", reg, ex)
